@@ -216,7 +216,7 @@ fn validate_command_part(command: &str) -> Result<(), CommandErrorKind> {
 
     if let Some((i, c)) = command
         .char_indices()
-        .find(|(_, c)| !is_valid_command_char(*c))
+        .find(|(i, c)| !is_valid_command_char(*c) || (*i == 0 && !c.is_ascii_alphabetic()))
     {
         Err(CommandErrorKind::InvalidCharacter(i, c))
     } else if is_command_list_command(command) {
